@@ -28,6 +28,26 @@ theorem kernel_calls_ok : kernelCalls.all kernelCallOk = true := by decide
 /-- every `.pyx` kernel does `srand(seed)` once, before any `rand()` -/
 theorem pyx_kernels_ok : (pyxKernels.all (·.2) && !pyxKernels.isEmpty) = true := by decide
 
+/-- the libc event list of every `.pyx` kernel starts with `srand(seed)` on the unmodified int parameter, at the top
+level of the body, there is no second seeding, and the kernel does draw: the premise of `kernelProg_libcOk` -/
+theorem pyx_table_ok : pyxTableOk pyxEvents = true := by decide
+
+/-- hence a kernel run of the current `.pyx` files, as the driver builds it, keeps the libc discipline -/
+theorem code_kernel_libcOk {Req Val Out : Type} (k : String × List String) (hk : k ∈ pyxEvents) (b : Bool) (v : Val) (r : Req)
+    (c : Val → Prog Req Val Out) (hc : ∀ x, LibcOk true (c x)) :
+    LibcOk b (kernelProg (pyxSrandFirst k.2) v r c) := by
+  have h := pyx_table_ok
+  simp only [pyxTableOk, Bool.and_eq_true, List.all_eq_true] at h
+  exact C05.kernelProg_libcOk k.2 (h.2 k hk).1 b v r c hc
+
+/-- closed world: no call reachable from a `mask_func` escaped the walk, so "no draw from a global stream anywhere
+in the reachable set" is what `table_ok` says -/
+theorem reach_closed : reachClosed unresolved = true := by decide
+
+/-- every consumer of a generator outside `subsample.py` (`CreateSamplingMask`, `EstimateBodyCoilImage`, `apply_mask`)
+hands over the file-name tuple or its own `seed` parameter -/
+theorem consumers_ok : consumersOk consumers = true := by decide
+
 /-- `temp_seed` is `get_state; seed(seed); try: yield; finally: set_state(state)` — what `tempSeed` mirrors -/
 theorem temp_seed_shape_eq : Gen.C05.tempSeedShape = Rng.tempSeedShape := by decide
 
@@ -35,15 +55,17 @@ theorem temp_seed_shape_eq : Gen.C05.tempSeedShape = Rng.tempSeedShape := by dec
 mask and the ACS call; `integerize_seed` returns int seeds unchanged -/
 theorem plumbing_ok : plumbingOk plumbing = true := by decide
 
-/-- no generator keeps per-instance memory between calls (no memo / cache / counter written in `mask_func` or its
-helpers), so modelling a call's body as a function of (arguments, drawn values) is faithful -/
+/-- no generator keeps memory between calls — per instance, per class, per module, in a closure, in a mutable default
+or behind a memoising decorator (nothing of the kind is written in `mask_func` or anything it reaches) — so modelling
+a call's body as a function of (arguments, drawn values) is faithful, also across instances and classes -/
 theorem no_instance_state_written : selfWritesOk selfWrites = true := by decide
 
 /-- the universal theorems, for the code as it is -/
 theorem code_seeded_call_history_independent {σ Seed Req Val Out : Type} (O : Ops σ Seed Req Val)
-    (prog : Prog Req Val Out) (hp : SitesIn table.length prog) (s : Seed) (i i' : Nat) (st st' : State σ Val) :
+    (prog : Prog Req Val Out) (hp : SitesIn table.length prog) (hl : LibcOk false prog)
+    (s : Seed) (i i' : Nat) (st st' : State σ Val) :
     (call table O prog (some s) i st).1 = (call table O prog (some s) i' st').1 :=
-  C05.seeded_call_history_independent table table_ok O prog hp s i i' st st'
+  C05.seeded_call_history_independent table table_ok O prog hp hl s i i' st st'
 
 theorem code_call_restores {σ Seed Req Val Out : Type} (O : Ops σ Seed Req Val)
     (prog : Prog Req Val Out) (hp : SitesIn table.length prog) (seed : Option Seed) (i : Nat) (st : State σ Val) :
@@ -52,9 +74,15 @@ theorem code_call_restores {σ Seed Req Val Out : Type} (O : Ops σ Seed Req Val
   C05.seeded_call_restores table table_ok O prog hp seed i st
 
 theorem code_history_independent {σ Seed Req Val Out G A : Type} (O : Ops σ Seed Req Val)
-    (body : G → A → Prog Req Val Out) (hb : ∀ g a, SitesIn table.length (body g a))
+    (body : G → A → Prog Req Val Out) (hb : ∀ g a, SitesIn table.length (body g a)) (hl : ∀ g a, LibcOk false (body g a))
     (h : List (Op Seed Req G A)) (g : G) (a : A) (s : Seed) (i i' : Nat) (st st' : State σ Val) :
     observe table O body st (h ++ [.call g a i (some s)]) = observe table O body st' [.call g a i' (some s)] :=
-  C05.history_independent table table_ok O body hb h g a s i i' st st'
+  C05.history_independent table table_ok O body hb hl h g a s i i' st st'
+
+theorem code_history_globals {σ Seed Req Val Out G A : Type} (O : Ops σ Seed Req Val)
+    (body : G → A → Prog Req Val Out) (hb : ∀ g a, SitesIn table.length (body g a))
+    (h : List (Op Seed Req G A)) (st : State σ Val) :
+    C05.globals (run table O body st h).1 = C05.globals (run table O body st (h.filter fun op => !C05.isCall op)).1 :=
+  C05.history_globals_eq_noncall table table_ok O body hb h st st rfl
 
 end DirectVerif.Bridge.C05
